@@ -93,6 +93,14 @@ pub async fn op_save_targets(sc: Value) -> Value {
         let root = sign(Root { spec_version: "1.0.0".into(), consistent_snapshot: consistent, version: nz(1), expires: far(), keys: table, roles, _extra: HashMap::new() }, &[&keys[0]]).await;
         let mut top = Targets::new("1.0.0".into(), nz(1), far());
         top.delegations = None;
+        // absolute names that have the output directory as a STRING prefix without lying inside it (a sibling `outdir-evil/`, `outdir.txt`), and one inside
+        let jail = tempfile::tempdir().unwrap();
+        let abs_out = jail.path().canonicalize().unwrap().join("abs").join("mid").join("outdir");
+        let abs_names: Vec<(TargetName, bool)> = [("-evil/x.txt", false), (".txt", false), ("2/victim.txt", false)].iter()
+            .filter_map(|(suffix, inside)| TargetName::new(format!("{}{suffix}", abs_out.display())).ok().map(|t| (t, *inside))).collect();
+        for (tn, _) in &abs_names {
+            top.targets.insert(tn.clone(), Target { length: data.len() as u64, hashes: Hashes { sha256: sha(&data).into(), _extra: HashMap::new() }, custom: HashMap::new(), _extra: HashMap::new() });
+        }
         for tn in &accepted {
             top.targets.insert(tn.clone(), Target { length: data.len() as u64, hashes: Hashes { sha256: sha(&data).into(), _extra: HashMap::new() }, custom: HashMap::new(), _extra: HashMap::new() });
         }
@@ -112,7 +120,19 @@ pub async fn op_save_targets(sc: Value) -> Value {
         let mut limits = tough::Limits::default();
         limits.max_targets_size = 64 * 1024 * 1024;
         let repo = RepositoryLoader::new(&ser(&root), Url::parse("file:///m/").unwrap(), Url::parse("file:///t/").unwrap()).transport(t.clone()).limits(limits).load().await.expect("sweep repository loads");
-        let jail = tempfile::tempdir().unwrap();
+        for (tn, inside) in &abs_names {
+            cases += 1;
+            let base = jail.path().canonicalize().unwrap().join("abs");
+            std::fs::create_dir_all(&abs_out).unwrap();
+            let r = repo.save_target(tn, &abs_out, Prefix::None).await;
+            let files = all_files(&base);
+            let outside: Vec<_> = files.iter().filter(|p| !p.starts_with(&abs_out)).collect();
+            if !outside.is_empty() || (!*inside && r.is_ok()) {
+                dev.push(json!({"what": format!("consistent={consistent}, prefix None: save_target of the absolute name {:?} into {:?}: result ok={}, files outside of outdir: {:?}", tn.raw().replace(&jail.path().canonicalize().unwrap().display().to_string(), "<tmp>"), "<tmp>/abs/mid/outdir", r.is_ok(),
+                    outside.iter().map(|p| p.strip_prefix(&base).unwrap()).collect::<Vec<_>>())}));
+            }
+            let _ = std::fs::remove_dir_all(&base);
+        }
         for (mode_name, mode) in [("None", Prefix::None), ("Digest", Prefix::Digest)] {
             for (i, tn) in accepted.iter().enumerate() {
                 cases += 1;
